@@ -2,9 +2,10 @@
    This file holds only the property theorems, each closed by [exact] and followed by
    Print Assumptions.  Models: C19/Varr.v Bitmap.v Htab.v Dlist.v (definitions only);
    proofs: C19/*Proofs.v, C19/Lcg.v. *)
-From Coq Require Import List ZArith NArith Bool Sorted.
+From Coq Require Import List ZArith NArith Bool Sorted Permutation.
 Import ListNotations.
-From MirV Require Import C19.Varr C19.VarrProofs C19.Bitmap C19.BitmapProofs C19.Dlist C19.DlistProofs.
+From MirV Require Import C19.Varr C19.VarrProofs C19.Bitmap C19.BitmapProofs C19.Dlist C19.DlistProofs
+  C19.Htab C19.HtabProofs C19.Lcg.
 
 (* ------------------------------------------------------------------ VARR *)
 (* VARR: for every script from every well-formed array, each step keeps els_num <= size, each
@@ -135,3 +136,74 @@ Print Assumptions dlist_frame.
 Theorem dlist_init_wf : forall n, Dlist.wf (dinit n) [].
 Proof. exact dinit_wf. Qed.
 Print Assumptions dlist_init_wf.
+
+(* ------------------------------------------------------------------ HTAB
+   For every element type, hash function and eq function such that eq is symmetric and transitive,
+   eq elements have equal hashes and hashes fit htab_hash_t (32 bits):
+   [Inv] = the representation invariant (size a power of two = 2 * els_size, every live element
+   reachable on its probe path before any empty entry, entries injective, live elements pairwise
+   non-eq, #non-empty entries <= els_bound <= els_size, els_num = number of live elements);
+   [absl h] = the live elements in els order = the abstract insertion-ordered association list;
+   [astep]/[arun] = the trivially correct list model (Htab.v), which also yields the dropped elements. *)
+Section HtabTheorems.
+Variable A : Type.
+Variable hashf : A -> N.
+Variable eqf : A -> A -> bool.
+Hypothesis eqf_sym : forall x y, eqf x y = eqf y x.
+Hypothesis eqf_trans : forall x y z, eqf x y = true -> eqf y z = true -> eqf x z = true.
+Hypothesis eqf_hash : forall x y, eqf x y = true -> hashf x = hashf y.
+Hypothesis hash_range : forall x, hashf x < 2 ^ 32.
+
+(* a created table satisfies the invariant and is the empty map *)
+Theorem htab_create_inv : forall min,
+  Inv A hashf eqf (hcreate A min) /\ absl A (hcreate A min) = [] /\ flog (hcreate A min) = [].
+Proof. exact (hcreate_spec A hashf eqf). Qed.
+
+(* one HTAB_DO (find / insert / replace / delete), incl. growth and in-place compaction when the
+   element array is full: never stuck (no out-of-fuel, out-of-range or undefined-cell read), keeps
+   the invariant, returns the found bit and *res of the abstract map, calls free_func on exactly
+   the replaced / deleted element *)
+Theorem htab_do_refines_map : forall h x act res, Inv A hashf eqf h ->
+  exists h' found res', hdo A hashf eqf 2 h x act res = Some (h', found, res') /\ Inv A hashf eqf h' /\
+    do_post A eqf (absl A h) act x res (flog h) (absl A h') found res' (flog h').
+Proof. exact (hdo_spec A hashf eqf eqf_sym eqf_trans eqf_hash hash_range). Qed.
+
+(* every op sequence (do / clear / els_num / foreach) from every state satisfying the invariant:
+   same outputs as the abstract map, final contents = abstract contents, els_num = cardinal,
+   free log = the abstract run's dropped elements in order *)
+Theorem htab_refines_map : forall ops h, Inv A hashf eqf h -> Forall (fun o => o <> HCollisions) ops ->
+  exists h' outs ds, hrun A hashf eqf h ops = Some (h', outs) /\ Inv A hashf eqf h' /\
+    arun A eqf (absl A h) ops = (absl A h', outs, ds) /\ flog h' = flog h ++ ds /\
+    h_els_num h' = length (absl A h').
+Proof. exact (hrun_refines A hashf eqf eqf_sym eqf_trans eqf_hash hash_range). Qed.
+
+(* free function exactly once per dropped element: from creation, the multiset of elements ever
+   stored = live elements + elements passed to free_func (so none twice, none leaked) *)
+Theorem htab_free_once : forall ops min, Forall (fun o => o <> HCollisions) ops ->
+  exists h' outs, hrun A hashf eqf (hcreate A min) ops = Some (h', outs) /\
+    flog h' = snd (arun A eqf [] ops) /\ absl A h' = fst (fst (arun A eqf [] ops)) /\
+    Permutation (astored A eqf [] ops) (absl A h' ++ flog h').
+Proof. exact (htab_free_once_core A hashf eqf eqf_sym eqf_trans eqf_hash hash_range). Qed.
+End HtabTheorems.
+Print Assumptions htab_create_inv.
+Print Assumptions htab_do_refines_map.
+Print Assumptions htab_refines_map.
+Print Assumptions htab_free_once.
+
+(* the probe sequence x -> 5x+1 (mod 2^k) has full period (Hull-Dobell): termination of the probe loop *)
+Theorem htab_probe_full_period : forall (k : N) (x0 t : N), x0 < 2 ^ k -> t < 2 ^ k ->
+  exists n : nat, N.of_nat n < 2 ^ k /\ Nat.iter n (fun x => (5 * x + 1) mod 2 ^ k) x0 = t.
+Proof. exact lcg5_full_period. Qed.
+Print Assumptions htab_probe_full_period.
+
+(* the instance run against the real header satisfies the hypotheses *)
+Theorem htab_instance_hyps : forall table, Forall (fun v => v < 2 ^ 32) table ->
+  (forall x y, inst_eq x y = inst_eq y x) /\
+  (forall x y z, inst_eq x y = true -> inst_eq y z = true -> inst_eq x z = true) /\
+  (forall x y, inst_eq x y = true -> inst_hash table x = inst_hash table y) /\
+  (forall x, inst_hash table x < 2 ^ 32).
+Proof.
+  exact (fun table Hall => conj inst_eq_sym (conj inst_eq_trans (conj (inst_eq_hash table)
+           (fun x => inst_hash_range table x Hall)))).
+Qed.
+Print Assumptions htab_instance_hyps.
